@@ -36,9 +36,11 @@ def drawn : List Obs → List Nat
 theorem step_next_le (vr : Variant) (k : Nat) (c : Conn V) (op : Op V) :
     c.next ≤ (step vr k c op).1.next := by
   cases op <;> simp only [step]
-  · split <;> simp
   · split
     · simp
+    · simp only; split <;> omega
+  · split
+    · simp only; split <;> omega
     · split <;> simp
   · simp only [recvResponse, complete]; repeat' split
     all_goals simp
@@ -148,10 +150,10 @@ theorem recv_single_exact (vr : Variant) (k : Nat) {c : Conn V} (hinv : Inv c) (
 /-- non-vacuity of `recv_single_exact`: two singles and a 3-batch outstanding; the response
     `1.0` settles request 1 (ticket 1) and nothing else. -/
 example :
-    let c : Conn Nat := (run (repaired false false) 1 (Conn.init (some .v2) 0)
+    let c : Conn Nat := (run (repaired true true) 1 (Conn.init (some .v2) 0)
       [.sendRequest true, .sendRequest true, .sendBatch [.req, .notif, .req, .req] true]).1
     c.out = [(.single 0, 0), (.single 1, 1), (.batch [2, 3, 4], 2)] ∧
-    step (repaired false false) 1 c (.recvSingle .v2 ⟨some (.half 2), true, .val 7⟩) =
+    step (repaired true true) 1 c (.recvSingle .v2 ⟨some (.half 2), true, .val 7⟩) =
       ({ c with out := [(.single 0, 0), (.batch [2, 3, 4], 2)],
                 futs := [.pending, .result 7, .pending] }, .done [1]) := by
   decide
@@ -257,9 +259,9 @@ theorem recv_batch_aligned (vr : Variant) (k : Nat) {c : Conn V} (hinv : Inv c) 
 /-- non-vacuity of `recv_batch_aligned`: the members of the 3-batch answered in the order
     4, 2, 3 (one id as a float); the future gets the results in member order 2, 3, 4. -/
 example :
-    let c : Conn Nat := (run (repaired false false) 1 (Conn.init (some .v2) 0)
+    let c : Conn Nat := (run (repaired true true) 1 (Conn.init (some .v2) 0)
       [.sendRequest true, .sendRequest true, .sendBatch [.req, .notif, .req, .req] true]).1
-    (step (repaired false false) 1 c (.recvBatch .v2
+    (step (repaired true true) 1 c (.recvBatch .v2
       [⟨some (.int 4), true, .val 40⟩, ⟨some (.half 4), true, .err 20⟩,
        ⟨some (.int 3), true, .val 30⟩])).1.futs
       = [.pending, .pending, .batch [.err 20, .val 30, .val 40]] := by
@@ -329,11 +331,11 @@ theorem raised_unchanged (vr : Variant) (k : Nat) (c : Conn V) (d : Proto) (e : 
       simp only [hb] at h
       exact recvResponseBatch_raised _ _ _ e h
 
-/-- **unknown_id_harmless.**  A single response whose id equals no outstanding single id, and a
-    response batch whose sorted ids equal no outstanding batch key, are rejected — with
-    `ProtocolError`, except where C05's F4/F5 are unrepaired and the id is unhashable / the ids
-    unsortable — and nothing outstanding is disturbed. -/
-theorem unknown_id_harmless (vr : Variant) (k : Nat) (c : Conn V) (d : Proto) :
+/-- Whatever the variant: a single response whose id equals no outstanding single id, and a
+    response batch whose sorted ids equal no outstanding batch key, raise and leave everything as
+    it was; the exception is `ProtocolError` except where the guards F4/F5 are missing and the id is
+    unhashable / the ids are unsortable (`unknown_id_pinned_witness`). -/
+theorem unknown_id_raises (vr : Variant) (k : Nat) (c : Conn V) (d : Proto) :
     (∀ m : RawResp V,
       (∀ n t, (Key.single n, t) ∈ c.out →
         pyEq (processResponse vr (c.detect d) m).1 (.int n) = false) →
@@ -388,16 +390,60 @@ theorem unknown_id_harmless (vr : Variant) (k : Nat) (c : Conn V) (d : Proto) :
         · cases hobs
         · exact recvResponseBatch_typeError _ _ _ hobs
 
+
+/-- **unknown_id_harmless.**  In the tree as it is (both guards present: `facts_guards`), a single
+    response whose id equals no outstanding single id — any JSON value, lists and dicts included —
+    and a response batch whose ids are not a permutation of the ids of an outstanding batch —
+    unsortable mixtures included — are rejected with `ProtocolError`, and nothing outstanding is
+    disturbed: table, futures and counter are as before. -/
+theorem unknown_id_harmless (vr : Variant) (hl : vr.lookupGuard = true) (hs : vr.sortGuard = true)
+    (k : Nat) (c : Conn V) (d : Proto) :
+    (∀ m : RawResp V,
+      (∀ n t, (Key.single n, t) ∈ c.out →
+        pyEq (processResponse vr (c.detect d) m).1 (.int n) = false) →
+      step vr k c (.recvSingle d m) = (c.settled d, .raised .protocolError)) ∧
+    (∀ ms : List (RawResp V),
+      (∀ ns t, (Key.batch ns, t) ∈ c.out →
+        ¬ (okPairs (ms.map (processResponse vr (c.detect d)))).map (fun x => x.1.num2)
+            ~ keyVals ns) →
+      step vr k c (.recvBatch d ms) = (c.settled d, .raised .protocolError)) := by
+  obtain ⟨h1, h2⟩ := unknown_id_raises vr k c d
+  constructor
+  · intro m hno
+    obtain ⟨e, he, hte⟩ := h1 m hno
+    cases e with
+    | protocolError => exact he
+    | typeError => have := (hte rfl).1; simp [hl] at this
+  · intro ms hno
+    obtain ⟨e, he, hte⟩ := h2 ms hno
+    cases e with
+    | protocolError => exact he
+    | typeError => rcases hte rfl with h | h <;> simp_all
+
+/-- **F4/F5 missing** (the guards `facts_guards` ties to the tree): without them a 1.0 response
+    whose id is a list, and a response batch with ids `0` and `"x"`, end in `TypeError` — the
+    counter-example that a regression removing either repair brings back. -/
+theorem unknown_id_pinned_witness :
+    let vr : Variant := repaired false false
+    (step vr 1 ((run vr 1 (Conn.init (some .v1) 0) [.sendRequest true]).1)
+      (.recvSingle .v1 ⟨some (.unhashable 0), true, .val (4 : Nat)⟩)).2 = .raised .typeError ∧
+    (step vr 1 ((run vr 1 (Conn.init (some .v2) 0) [.sendBatch [.req, .req] true]).1)
+      (.recvBatch .v2 [⟨some (.int 0), true, .val (4 : Nat)⟩,
+                       ⟨some (.str [120]), true, .val 7⟩])).2 = .raised .typeError := by
+  decide
+
 /-- non-vacuity of `batch_mismatch` / `unknown_id_harmless`: with requests 0, 1 and the batch
     (2, 3, 4) outstanding, the batch answered by ids 4, 2, 3 is accepted (ticket 2); a batch
     response with a member missing, one with a foreign member, a single response to the member id
     3 and a response to the unsent id 9 are all rejected with `ProtocolError`. -/
 example :
-    let vr := repaired false false
+    let vr := repaired true true
     let c : Conn Nat := (run vr 1 (Conn.init (some .v2) 0)
       [.sendRequest true, .sendRequest true, .sendBatch [.req, .notif, .req, .req] true]).1
     let r := fun (n : Int) => (⟨some (.int n), true, .val 1⟩ : RawResp Nat)
     (step vr 1 c (.recvBatch .v2 [r 4, r 2, r 3])).2 = .done [2] ∧
+    (step vr 1 c (.recvBatch .v2 [r 4, ⟨some (.str [120]), true, .val 1⟩, r 3])).2
+      = .raised .protocolError ∧
     (step vr 1 c (.recvBatch .v2 [r 4, r 2])).2 = .raised .protocolError ∧
     (step vr 1 c (.recvBatch .v2 [r 4, r 2, r 9])).2 = .raised .protocolError ∧
     (step vr 1 c (.recvSingle .v2 (r 3))).2 = .raised .protocolError ∧
@@ -535,7 +581,7 @@ theorem complete_once (vr : Variant) {k : Nat} (hk : 0 < k) (ops : List (Op V)) 
 /-- non-vacuity of `complete_once` / `fut_final`: request 0 answered, replayed (rejected),
     request 1 answered: tickets 0 and 1 complete once each and keep their outcome. -/
 example :
-    let vr := repaired false false
+    let vr := repaired true true
     let r := fun (n : Int) (v : Nat) => (⟨some (.int n), true, .val v⟩ : RawResp Nat)
     let h := run vr 1 (Conn.init (some .v2) 0)
       [.sendRequest true, .sendRequest true, .recvSingle .v2 (r 0 5), .recvSingle .v2 (r 0 6),
@@ -646,11 +692,11 @@ example :
     let b : Op Nat := .recvSingle .v2 ⟨some (.int 1), true, .err 6⟩
     let e : Op Nat := .recvBatch .v2 [⟨some (.int 3), true, .val 8⟩, ⟨some (.int 2), true, .val 7⟩]
     [a, b, e] ~ [e, b, a] ∧ (∀ op ∈ [a, b, e], isRecv op = true) ∧
-      [a, b, e].Pairwise (CompatibleOps (repaired false false) .v2) := by
+      [a, b, e].Pairwise (CompatibleOps (repaired true true) .v2) := by
   refine ⟨by decide, by decide, ?_⟩
   have h : ∀ x y : Op Nat,
-      (actOf (repaired false false) .v2 x).sig ≠ (actOf (repaired false false) .v2 y).sig →
-      CompatibleOps (repaired false false) .v2 x y := fun _ _ h => Or.inr (Or.inr (Or.inr h))
+      (actOf (repaired true true) .v2 x).sig ≠ (actOf (repaired true true) .v2 y).sig →
+      CompatibleOps (repaired true true) .v2 x y := fun _ _ h => Or.inr (Or.inr (Or.inr h))
   refine Pairwise.cons ?_ (Pairwise.cons ?_ (Pairwise.cons (by simp) Pairwise.nil))
   · intro y hy
     simp only [mem_cons, not_mem_nil, or_false] at hy
@@ -662,22 +708,23 @@ example :
 
 /-! ## bool ids (F7) -/
 
-/-- **bool_id_distinct.**  In the repaired tree a response whose id is `true`/`false` never
+/-- **bool_id_distinct.**  In the repaired tree (`rejectBool`, F07; tied by `facts_admit_table`,
+    `facts_process_table` and `facts_conn_rejects_bool`) a response whose id is `true`/`false` never
     completes anything, on any protocol and whatever is outstanding (in particular not requests
     1 / 0, although `True == 1` and `False == 0` in Python): it is rejected with `ProtocolError`
     and the connection is unchanged.  Likewise a response batch with a bool id among its
     members. -/
-theorem bool_id_distinct (lg sg : Bool) (k : Nat) (c : Conn V) (d : Proto) (b : Bool) :
+theorem bool_id_distinct (vr : Variant) (hr : vr.rejectBool = true) (k : Nat) (c : Conn V) (d : Proto) (b : Bool) :
     (∀ (wf : Bool) (r : Res V),
-      step (repaired lg sg) k c (.recvSingle d ⟨some (.bool b), wf, r⟩) =
+      step vr k c (.recvSingle d ⟨some (.bool b), wf, r⟩) =
         (c.settled d, .raised .protocolError)) ∧
     (∀ ms : List (RawResp V), (∃ m ∈ ms, m.id = some (.bool b)) →
-      step (repaired lg sg) k c (.recvBatch d ms) = (c.settled d, .raised .protocolError)) := by
+      step vr k c (.recvBatch d ms) = (c.settled d, .raised .protocolError)) := by
   constructor
   · intro wf r
     rw [step_recvSingle]
     cases hp : c.detect d <;> cases wf <;>
-      simp [processResponse, admitId, repaired, recvResponse, Id.isBool]
+      simp [processResponse, admitId, hr, recvResponse, Id.isBool]
     all_goals
       apply complete_none
       rintro ⟨key, t⟩ _
@@ -687,19 +734,19 @@ theorem bool_id_distinct (lg sg : Bool) (k : Nat) (c : Conn V) (d : Proto) (b : 
     cases hp : c.detect d with
     | v1 => simp [Proto.allowBatches]
     | v2 =>
-      have hmal : (ms.map (processResponse (repaired lg sg) .v2)).any (·.2.isMalformed) = true := by
+      have hmal : (ms.map (processResponse vr .v2)).any (·.2.isMalformed) = true := by
         rw [any_eq_true]
-        exact ⟨_, mem_map.2 ⟨m, hm, rfl⟩, by simp [processResponse, hid, admitId, repaired, Body.isMalformed]⟩
-      have hne : (ms.map (processResponse (repaired lg sg) .v2)).isEmpty = false := by
+        exact ⟨_, mem_map.2 ⟨m, hm, rfl⟩, by simp [processResponse, hid, admitId, hr, Body.isMalformed]⟩
+      have hne : (ms.map (processResponse vr .v2)).isEmpty = false := by
         cases ms with
         | nil => simp at hm
         | cons _ _ => rfl
       simp [Proto.allowBatches, recvResponseBatch, hmal, hne]
     | loose =>
-      have hmal : (ms.map (processResponse (repaired lg sg) .loose)).any (·.2.isMalformed) = true := by
+      have hmal : (ms.map (processResponse vr .loose)).any (·.2.isMalformed) = true := by
         rw [any_eq_true]
-        exact ⟨_, mem_map.2 ⟨m, hm, rfl⟩, by simp [processResponse, hid, admitId, repaired, Body.isMalformed]⟩
-      have hne : (ms.map (processResponse (repaired lg sg) .loose)).isEmpty = false := by
+        exact ⟨_, mem_map.2 ⟨m, hm, rfl⟩, by simp [processResponse, hid, admitId, hr, Body.isMalformed]⟩
+      have hne : (ms.map (processResponse vr .loose)).isEmpty = false := by
         cases ms with
         | nil => simp at hm
         | cons _ _ => rfl
@@ -730,10 +777,10 @@ theorem bool_id_batch_pinned_witness :
 
 /-- the same inputs on the repaired model: rejected, nothing completes -/
 example :
-    (step (repaired false false) 1 (witnessConn (repaired false false) .v2)
+    (step (repaired true true) 1 (witnessConn (repaired true true) .v2)
       (.recvSingle .v2 ⟨some (.bool true), true, .val 9⟩)).2 = .raised .protocolError ∧
-    (step (repaired false false) 1
-      ((run (repaired false false) 1 (Conn.init (some .v1) 0) [.sendRequest true, .sendRequest true]).1)
+    (step (repaired true true) 1
+      ((run (repaired true true) 1 (Conn.init (some .v1) 0) [.sendRequest true, .sendRequest true]).1)
       (.recvSingle .v1 ⟨some (.bool true), true, .val 9⟩)).2 = .raised .protocolError := by
   decide
 
@@ -780,14 +827,29 @@ theorem cancel_all (vr : Variant) (k : Nat) {c : Conn V} (e : Key × Nat) (he : 
 /-! ## notification-only batches (F19) -/
 
 /-- **notification_only_batch.**  A batch without request members draws no id, registers nothing
-    and has no future (`event is None`); in the repaired tree (fixes/F19) `BatchRequest.__aexit__`
-    then awaits nothing and the results are empty — no exception after the batch was written. -/
+    and has no future (`event is None`), whatever the state of the connection; and with the
+    behaviour the facts observed on a real `RPCSession` (`facts_notification_only_batch`: the
+    `async with` block returns quietly with `results == ()`), `BatchRequest.__aexit__` awaits
+    nothing after the batch was written. -/
 theorem notification_only_batch (vr : Variant) (k : Nat) (c : Conn V) (ms : List Member)
     (hne : ms ≠ []) (hn : reqCount ms = 0) (hb : (c.proto.getD .v2).allowBatches = true) :
-    step vr k c (.sendBatch ms true) = (c, .sent [] none) ∧ batchExit true none = .ok none := by
-  refine ⟨?_, rfl⟩
+    step vr k c (.sendBatch ms true) = (c, .sent [] none) ∧
+      ∀ t, (step vr k c (.sendBatch ms true)).2 = .sent [] t →
+        batchExit Facts.C01.notifBatchQuiet t = .ok none := by
   have h1 : ms.isEmpty = false := by cases ms <;> simp_all
-  simp [step, hn, hb, h1]
+  have hs : step vr k c (.sendBatch ms true) = (c, .sent [] none) := by simp [step, hn, hb, h1]
+  refine ⟨hs, ?_⟩
+  intro t ht
+  rw [hs] at ht
+  simp only [Obs.sent.injEq, true_and] at ht
+  subst ht
+  rfl
+
+/-- non-vacuity: a batch of two notifications on a connection with a request outstanding -/
+example :
+    let c : Conn Nat := (run (repaired true true) 1 (Conn.init none 0) [.sendRequest true]).1
+    step (repaired true true) 1 c (.sendBatch [.notif, .notif] true) = (c, .sent [] none) := by
+  decide
 
 /-- F19 on the pinned tree: `await None` raises `TypeError` -/
 theorem notification_only_batch_pinned_witness :
@@ -821,7 +883,79 @@ theorem facts_allow_batches :
       Proto.allowBatches .v2] := by decide
 
 open Aiorpcx.Facts.C01 in
-/-- `_receive_response_batch` sorts once, ascending, on the id component of the pairs -/
-theorem facts_sort_key : sortedCalls = 1 ∧ sortKeyIndex = 0 ∧ sortReverse = false := by decide
+/-- **facts_guards.**  Both repairs are present in the tree: an unhashable response id and an
+    unsortable response batch end in `ProtocolError` (probed by running `receive_message`).
+    `unknown_id_harmless` is stated for exactly this case; a regression that removes either
+    guard breaks this theorem and the oracle reports the `TypeError` with its input. -/
+theorem facts_guards : lookupGuarded = true ∧ sortGuarded = true := by decide
+
+/-- the variant the facts describe: F7 applied, guards as probed -/
+def treeVariant : Variant :=
+  { repaired Facts.C01.lookupGuarded Facts.C01.sortGuarded with
+    failDrawsSingle := Facts.C01.failDrawsSingle, failDrawsBatch := Facts.C01.failDrawsBatch }
+
+/-- `bool_id_distinct` applies to the variant the driver runs -/
+theorem facts_variant_rejects_bool : treeVariant.rejectBool = true := rfl
+
+/-- hence `unknown_id_harmless` applies to the tree as probed -/
+theorem facts_guards_variant :
+    treeVariant.lookupGuard = true ∧ treeVariant.sortGuard = true := facts_guards
+
+/-- the id samples of the process table: int, float, str, null, bool, list, dict -/
+def idSamples : List Id :=
+  [.int 1, .half 3, .str [97], .null, .bool true, .unhashable 0, .unhashable 1]
+
+/-- what the model's `processResponse` answers for a response with id `i` that carries a result,
+    an error, is malformed, or has no id: (is it a response?, the id it counts under) -/
+def processRow (vr : Variant) (p : Proto) (i : Id) : List (Bool × Id) :=
+  let cell := fun (m : RawResp Nat) =>
+    let r := processResponse vr p m
+    ((match r.2 with | .ok _ => true | .malformed => false), r.1)
+  [cell ⟨some i, true, .val 0⟩, cell ⟨some i, true, .err 0⟩, cell ⟨some i, false, .val 0⟩,
+   cell ⟨none, true, .val 0⟩]
+
+open Aiorpcx.Facts.C01 in
+/-- **facts_process_table.**  `message_to_item`, run on 3 protocols x 7 id types x
+    {result, error, malformed, no id}, classifies every response as the model's
+    `processResponse` does: same "is a response", same id it counts under (so a malformed
+    response with an admissible id keeps its id, one with an inadmissible or missing id has none). -/
+theorem facts_process_table :
+    idSamples.map (processRow treeVariant .v1) = processV1 ∧
+    idSamples.map (processRow treeVariant .v2) = processV2 ∧
+    idSamples.map (processRow treeVariant .loose) = processLoose := by
+  decide
+
+/-- the model's answer to a sort probe: only the batch with ids `ns` is outstanding; the response
+    batch lists the members in the order `order` (member `j` carries the result `j`); the member
+    indices in the order the future holds them, `none` if the batch was not completed -/
+def probeOrder (vr : Variant) (ns order : List Nat) : Option (List Nat) :=
+  let c : Conn Nat := { proto := some .v2, next := 0, out := [(.batch ns, 0)], futs := [.pending] }
+  let ms := order.map fun j => (⟨some (.int (ns.getD j 0)), true, .val j⟩ : RawResp Nat)
+  match (step vr 1 c (.recvBatch .v2 ms)).1.futs with
+  | [.batch rs] => some (rs.map fun r => match r with | .val v => v | .err e => e)
+  | _ => none
+
+open Aiorpcx.Facts.C01 in
+/-- **facts_sort_probes.**  Real batches (ids read from the wire; also ids straddling 9/10 and
+    99/100) answered in permuted member orders with results that cannot be compared with `<`:
+    the real future delivers the results in exactly the order the model computes - member order.
+    Replaces the former syntactic fact about the `sorted(..., key=...)` call. -/
+theorem facts_sort_probes :
+    sortProbes.all (fun p => probeOrder treeVariant p.1 p.2.1 == p.2.2) = true ∧
+    sortProbes.all (fun p => p.2.2 == some (List.range p.1.length)) = true ∧
+    sortProbes.length ≥ 18 := by
+  decide +kernel
+
+open Aiorpcx.Facts.C01 in
+/-- a batch answer with a duplicated, missing or foreign member id, and a single response to a
+    member id, are rejected by the real connection with `ProtocolError` and leave the batch
+    untouched - as `batch_mismatch` / `unknown_id_harmless` prove for the model -/
+theorem facts_mismatch_rejected : mismatchRejected = [true, true, true, true] := by decide
+
+open Aiorpcx.Facts.C01 in
+/-- F19 is repaired in the tree: a notification-only batch sent through a real `RPCSession`
+    returns quietly with `results == ()` (the second half of `notification_only_batch`) -/
+theorem facts_notification_only_batch :
+    notifBatchQuiet = true ∧ batchExit notifBatchQuiet none = .ok none := ⟨by decide, rfl⟩
 
 end Aiorpcx.C01
